@@ -413,9 +413,8 @@ def exec_op(op, a, w):
         ok = z3.If(z3.Bool("call_ok" + k), BV(1), BV(0))  # the success flag is 0 or 1 (Yellow Paper)
         rsize = z3.BitVec("call_retsize" + k, 256)
         rdata = z3.Array("call_retdata" + k, W, B8)
-        ev = (op, bv(gas), bv(to), bv(value), retbytes(w, ao, al))
-        if env.snapshot_at_calls:
-            ev = ev + ({"storage": w.storage, "transient": w.transient, "pc": w.pc},)
+        # the persistent state the callee can observe is part of the event (a re-entering or reading callee sees it)
+        ev = (op, bv(gas), bv(to), bv(value), retbytes(w, ao, al), {"storage": w.storage, "transient": w.transient, "pc": w.pc})
         # adversarial callee: success flag 0/1, any return data; storage may be changed by re-entrancy on `call`
         w2 = w.replace(trace=w.trace + (ev,), retdata=rdata, retsize=rsize, ncalls=w.ncalls + 1)
         if op != "staticcall" and env.reentrancy_havoc:
